@@ -20,6 +20,10 @@ func Decode{{ .Method.VarName }}Request(ctx context.Context, v any, md metadata.
 				if vals := md.Get({{ printf "%q" .Name }}); len(vals) > 0 {
 					{{ .VarName }} = {{ if .Pointer }}&{{ end }}vals[0]
 				}
+				{{- if and .DefaultValue (not .Pointer) }} else {
+					{{ .VarName }} = {{ if eq .TypeName "string" }}{{ printf "%q" .DefaultValue }}{{ else }}{{ printf "%#v" .DefaultValue }}{{ end }}
+				}
+				{{- end }}
 			{{- end }}
 		{{- else if .StringSlice }}
 			{{- if .Required }}
@@ -56,6 +60,10 @@ func Decode{{ .Method.VarName }}Request(ctx context.Context, v any, md metadata.
 					{{ .VarName }}Raw := vals[0]
 					{{ template "type_conversion" . }}
 				}
+				{{- if and .DefaultValue (not .Pointer) }} else {
+					{{ .VarName }} = {{ if eq .TypeName "string" }}{{ printf "%q" .DefaultValue }}{{ else }}{{ printf "%#v" .DefaultValue }}{{ end }}
+				}
+				{{- end }}
 			{{- end }}
 		{{- end }}
 		{{- if .Validate }}
